@@ -482,12 +482,16 @@ RULES = [
     Rule('C09.P4', 'names the callee captures are reserved before any name is minted, and a caller that binds one of them is refused', p4_captured_names, 3, 'P'),
     Rule('C09.G1', 'a refused call site consumes no index', g1_refusal_before_index, 2, 'G'),
     Rule('C09.G2', 'LiftContext / FreeVarElim / Monomorphize change only what they state', g2_lift_close_pin, 14, 'G'),
+    Rule('C09.G3', 'a captured value is closed over as a literal that denotes exactly that value (= C07.T1, value_to_literal)', lambda ctx: __import__('sa.props.c07', fromlist=['t1_literal_forms']).t1_literal_forms(ctx), 11, 'G'),
     Rule('C09.D1', 'a constructor is hoisted out of a loop only if its arguments are constant there: constants at merges and loop heads (= C13.D2, partial evaluation)', _d1_partial_eval, 12, 'D'),
 ]
 
 from ..selftest import Mutant  # noqa: E402
 
 MUTANTS = [
+    Mutant('captured-float-closed-over-as-its-repr', 'fpy2/transform/const_fold.py', "        case float() if val == 0 and math.copysign(1.0, val) < 0:\n            # a Python `-0.0` is a negative zero too\n            return Decnum('-0.0', loc)\n        case int() | float():\n            return _rational_literal(Fraction(val), loc)",
+           "        case float():\n            return Decnum(repr(val), loc)\n        case int():\n            return _rational_literal(Fraction(val), loc)", 'C09.G3',
+           'seeded change C09e: SCALE = 0.1 is closed over as the exact 1/10, and 3 * SCALE changes'),
     Mutant('fpcore-description-wrapped-as-it-is', INLINE, "            callee_ctx = ast.ctx.to_context() if isinstance(ast.ctx, FPCoreContext) else ast.ctx\n", "            callee_ctx = ast.ctx\n", 'C09.T1',
            'finding F92 before its repair: the inlined program raises TypeError'),
     Mutant('inliner-ignores-the-evaluation-order', INLINE, "            reorders=_reorders(e, self._order, self.def_use),\n", "", 'C09.S2',
